@@ -221,6 +221,13 @@ End Vocab.
 
 Arguments dict T : clear implicits.
 
+(* the numeric bounds of a configuration, for another token type (the n-gram stage has no excluded tokens/regex) *)
+Definition retype_config {T U} (c : config T) : config U :=
+  {| ignored := []; use_regex := false; max_unique := max_unique c;
+     min_occ := min_occ c; max_occ := max_occ c; min_freq := min_freq c; max_freq := max_freq c;
+     min_dococc := min_dococc c; max_dococc := max_dococc c;
+     min_docfreq := min_docfreq c; max_docfreq := max_docfreq c |}.
+
 (* lexicographic order on index tuples (python tuple comparison) *)
 Fixpoint lex_ltb (a b : list Z) : bool :=
   match a, b with
